@@ -4,6 +4,8 @@ import (
 	"bytes"
 	"errors"
 	"fmt"
+	"sync"
+	"sync/atomic"
 
 	"github.com/pion/stun/v3"
 	"github.com/pion/stun/v3/verifharness/core"
@@ -319,6 +321,17 @@ func c04Sign(c *core.Ctx, r *gen.Rand) (m *stun.Message, key []byte, ok bool) {
 			}
 			u, re, p = word(), word(), word()
 		}
+		if r.Chance(1, 6) {
+			// no limit on the password (or on the sum of the three)
+			p = string(r.Bytes(r.PickInt([]int{700, 1300, 2041, 2042, 3000, 9000})))
+		}
+		if r.Bool() {
+			// an earlier holder of the same credentials wipes its key when it is done with it
+			first := stun.NewLongTermIntegrity(u, re, p)
+			for k := range first {
+				first[k] = 0
+			}
+		}
 		mi = stun.NewLongTermIntegrity(u, re, p)
 		key = ref.LongTermKey(u, re, p)
 		c.Count("long_term_keys", 1)
@@ -412,6 +425,52 @@ func c04(c *core.Ctx) {
 			// so key||0x00 is the same key for lengths below the block size)
 			c04Judge(c, wire, wrong, "signed-wrong-key", false)
 		}
+	})
+	// (b3) several goroutines signing and checking at once, each with its own keys (long ones included): every MAC is
+	// the RFC one, every own message verifies
+	c.Section("concurrent-signers", c.N(30, 3000), func(i int64, _ *gen.Rand) {
+		const g = 8
+		var wg sync.WaitGroup
+		var bad atomic.Value
+		for k := 0; k < g; k++ {
+			wg.Add(1)
+			rk := gen.Derive(c.Seed, uint64(i), uint64(k), 0xC04C)
+			go func() {
+				defer wg.Done()
+				for n := 0; n < 60; n++ {
+					key := rk.Bytes(rk.PickInt([]int{0, 16, 20, 64, 65, 80, 100, 200}))
+					m := new(stun.Message)
+					_ = m.Build(stun.BindingRequest, stun.NewTransactionIDSetter(rk.TID()), stun.RawAttribute{Type: 0x8022, Value: rk.Bytes(rk.Intn(40))})
+					pre := append([]byte(nil), m.Raw...)
+					l := len(pre) - 20 + 24
+					pre[2], pre[3] = byte(l>>8), byte(l)
+					want := ref.HMACSHA1(key, pre)
+					mi := stun.MessageIntegrity(key)
+					if err := mi.AddTo(m); err != nil {
+						bad.Store("AddTo: " + err.Error())
+
+						return
+					}
+					if got := m.Raw[len(m.Raw)-20:]; !bytes.Equal(got, want) {
+						bad.Store(fmt.Sprintf("key %d bytes: appended MAC %x, HMAC-SHA1 per RFC %x", len(key), got, want))
+
+						return
+					}
+					if err := mi.Check(m); err != nil {
+						bad.Store(fmt.Sprintf("key %d bytes: own message does not verify: %v", len(key), err))
+
+						return
+					}
+				}
+			}()
+		}
+		wg.Wait()
+		c.Eval(g * 60)
+		c.Count("concurrent_sign_and_check", g*60)
+		if v, _ := bad.Load().(string); v != "" {
+			c.Violate("concurrent-mismatch", "concurrent-mismatch", map[string]interface{}{"goroutines": g, "problem": v})
+		}
+		c.Distinct(uint64(i) | 6<<50)
 	})
 	// (b2) one key buffer rewritten in place between uses (the pooled HMAC must not remember keys by reference)
 	c.Section("key-buffer-reuse", c.N(300, 100000), func(_ int64, r *gen.Rand) {
